@@ -24,6 +24,7 @@ import tarfile
 import tempfile
 import threading
 import time
+import warnings
 import zipfile
 from contextlib import closing
 from importlib.abc import Loader, MetaPathFinder
@@ -582,7 +583,9 @@ def _parse_setup_py(
     # pylint: disable=bad-option-value,no-name-in-module,no-member,import-outside-toplevel,too-many-branches
 
     # Capture warnings.warn, which is sometimes used in setup.py files
+    old_showwarning = warnings.showwarning
     logging.captureWarnings(True)
+    capturing_started = warnings.showwarning is not old_showwarning
 
     results: List[DistInfo] = []
     setup_with_results = functools.partial(setup, results)
@@ -855,6 +858,10 @@ def _parse_setup_py(
                         and extractor.contains_path(module.__file__)
                     ):
                         del sys.modules[module_name]
+
+            # Only undo the capture if this call switched it on.
+            if capturing_started:
+                logging.captureWarnings(False)
 
     if not results:
         raise ValueError(
